@@ -1,4 +1,4 @@
 (* Extraction of the iv_work / iv_thread transition system and its monitors (C12, C13). *)
 From Coq Require Import ExtrOcamlBasic.
-From Ivv Require Import MT.WorkMT.
-Extraction "workmt_model.ml" WorkMT.init WorkMT.step.
+From Ivv Require Import MT.WorkMT MT.WorkMTMon.
+Extraction "workmt_model.ml" WorkMT.init WorkMT.step WorkMTMon.mon12 WorkMTMon.mon13.
